@@ -355,7 +355,7 @@ def r15c(ctx):
     fs_cls = model.cls("ReadParquetFSSpec")
     di = model.method(fs_cls, "_dataset_info", own=True).node
     ddefs = flow.Defs(di)
-    loops = [n for n in ast.walk(di) if isinstance(n, ast.For) and any(isinstance(c, ast.Call) and ast.unparse(c.func) == "fs.checksum" for c in ast.walk(n))]
+    loops = [n for n in ast.walk(di) if isinstance(n, ast.For) and any(isinstance(c, ast.Call) and isinstance(c.func, ast.Attribute) and c.func.attr == "checksum" for c in ast.walk(n))]
     if not loops:
         raise AnalysisError("anchor vanished: checksum loop in ReadParquetFSSpec._dataset_info")
     it = loops[0].iter
